@@ -215,10 +215,25 @@ struct Id {
     idx: u32,
 }
 
+/// A scripted connection error. Its CONTENT is its kind (`terminal`); `id` is the observer's tag saying which
+/// scripted item it was. Equality / hashing look at the content only, as for two identical error payloads of
+/// a venue: two soft errors in a row are EQUAL errors and both must be passed on / handled.
 #[derive(Debug, Clone)]
 struct ScriptErr {
     id: Id,
     terminal: bool,
+}
+
+impl PartialEq for ScriptErr {
+    fn eq(&self, other: &Self) -> bool {
+        self.terminal == other.terminal
+    }
+}
+impl Eq for ScriptErr {}
+impl std::hash::Hash for ScriptErr {
+    fn hash<H: std::hash::Hasher>(&self, state: &mut H) {
+        self.terminal.hash(state)
+    }
 }
 
 impl ScriptErr {
